@@ -557,6 +557,24 @@ def r07_11(run, model):
                    "generated and the Go output calls an undefined function")
 
 
+def r07_12(run, model):
+    run.rule("R07.12", "specialisation terminates: the instance work list is bounded (a limit on the size of the type arguments or on the number "
+                       "of instances of one function, answered by a diagnostic) - polymorphic recursion is accepted by the type checker, so "
+                       "nothing else stops `f[T]` from requesting `f[(T, T)]` for ever")
+    f = model.fn("ensure_instance", MONO, impl="Ctx")
+    g = model.fn("mono", MONO)
+    limits = []
+    for fn_ in (f, g):
+        for iff in S.find(fn_.body, "If"):
+            c = S.norm_ws(run.facts.text(MONO, iff["cond"]["sp"]))
+            if re.search(r"(len\(\)|depth|size|count)\w*\s*(>=|>)|\b[A-Z][A-Z_]{3,}\b", c):
+                limits.append(c[:60])
+    run.ob("R07.12", "Ctx::ensure_instance|specialisation is bounded", bool(limits), site(MONO, f.node["sp"]),
+           f"limit tests in ensure_instance / the work loop: {limits or 'none'}",
+           witness="fn grow[T](x: T, n: int32) -> int32 { if n == 0 { 0 } else { grow((x, x), n - 1) } } is accepted; mono queues grow[(T,T)], "
+                   "grow[((T,T),(T,T))], … until memory is exhausted")
+
+
 def run(run, model):
     run.try_rule(r07_1, model)
     run.try_rule(r07_2, model, None, "C07")
@@ -568,6 +586,7 @@ def run(run, model):
     run.try_rule(r07_5, model)
     run.try_rule(r07_6, model)
     run.try_rule(r07_11, model)
+    run.try_rule(r07_12, model)
     from rules import c03
     run.rule("R07.10", "no residue of type parameters: a type parameter that can never be inferred is rejected where the function is declared (shared with C03 R03.17)")
     run.try_rule(c03.r03_17, model)
